@@ -86,3 +86,63 @@ Lemma through_awaits : forall thrower awaiters,
   trace_through_awaits thrower awaiters =
   concat (map build_trace (rev awaiters)) ++ build_trace thrower.
 Proof. intros. apply fold_prepend. Qed.
+
+(* ---- the stored-trace protocol ---- *)
+Lemma errval_eqb_refl : forall v, errval_eqb v v = true.
+Proof. intros [a|a]; cbn [errval_eqb]; apply Z.eqb_refl. Qed.
+
+Lemma run_stored_app : forall c s a b, run_stored c s (a ++ b) = run_stored c (run_stored c s a) b.
+Proof. intros. unfold run_stored. apply fold_left_app. Qed.
+
+Lemma reuse_same : forall c tr v, cfg_refonly c = false -> reuse c (Some (tr, v)) v = Some tr.
+Proof.
+  intros c tr v Hr. cbn [reuse]. rewrite errval_eqb_refl, Hr. reflexivity.
+Qed.
+
+(* an error that leaves every run on its way carries the trace of the thread state at its origin *)
+Lemma origin_run : forall c o v, cfg_refonly c = false ->
+  run_stored c None (origin_ops o v) = Some (build_trace (origin_thread o), v).
+Proof.
+  intros c o v Hr. induction o as [th|th|i IH th]; cbn [origin_ops origin_thread].
+  - reflexivity.
+  - reflexivity.
+  - rewrite run_stored_app, IH. cbn [run_stored fold_left step]. rewrite (reuse_same c _ v Hr). reflexivity.
+Qed.
+
+Lemma episode_run : forall c o v e, cfg_refonly c = false ->
+  (cfg_clear c = true \/ e = Caught) ->
+  run_stored c None (episode_ops o v e) = None.
+Proof.
+  intros c o v e Hr Hc. destruct e; cbn [episode_ops].
+  - destruct Hc as [Hc|Hc]; [|discriminate Hc].
+    rewrite run_stored_app, (origin_run c o v Hr). cbn [run_stored fold_left step]. rewrite Hc. reflexivity.
+  - destruct o as [th|th|i th].
+    + reflexivity.
+    + cbn [run_stored fold_left step reuse]. rewrite Hr.
+      destruct (cfg_clear c); reflexivity.
+    + rewrite run_stored_app, (origin_run c i v Hr). cbn [run_stored fold_left step].
+      rewrite (reuse_same c _ v Hr). reflexivity.
+Qed.
+
+Definition all_caught (h : list (origin * errval * ending)) : Prop :=
+  Forall (fun x => snd x = Caught) h.
+
+Lemma history_run : forall c h, cfg_refonly c = false ->
+  (cfg_clear c = true \/ all_caught h) ->
+  run_stored c None (history_ops h) = None.
+Proof.
+  intros c h Hr Hc. induction h as [|[[o v] e] r IH]; [reflexivity|].
+  cbn [history_ops]. rewrite run_stored_app.
+  assert (He : cfg_clear c = true \/ e = Caught).
+  { destruct Hc as [Hc|Hc]; [left; exact Hc|right]. inversion Hc as [|? ? Hx _]; subst. exact Hx. }
+  rewrite (episode_run c o v e Hr He). apply IH.
+  destruct Hc as [Hc|Hc]; [left; exact Hc|right]. inversion Hc; subst; assumption.
+Qed.
+
+Lemma reported_trace : forall c h o v, cfg_refonly c = false ->
+  (cfg_clear c = true \/ all_caught h) ->
+  reported c h o v = build_trace (origin_thread o).
+Proof.
+  intros c h o v Hr Hc. unfold reported.
+  rewrite run_stored_app, (history_run c h Hr Hc), (origin_run c o v Hr). reflexivity.
+Qed.
